@@ -301,20 +301,20 @@ Definition read_size_check (e : sexp) : option (string * string * N * N) :=
 Definition is_default_attr (a : sexp) : bool :=
   match read_attr_outer a with Some [Atom d] => String.eqb d "default" | _ => false end.
 
-(** a discriminant [<n>isize as _] or [- <n>isize as _] *)
+(** a discriminant [<n>i64 as _] or [- <n>i64 as _] *)
 Definition read_disc (l : list sexp) : option Z :=
   match l with
   | [lit; Atom a; Atom u] =>
     if String.eqb a "as" && String.eqb u "_" then
       match read_int lit with
-      | Some (n, sfx) => if String.eqb sfx "isize" then Some (Z.of_N n) else None
+      | Some (n, sfx) => if String.eqb sfx "i64" then Some (Z.of_N n) else None
       | None => None
       end
     else None
   | [Atom m; lit; Atom a; Atom u] =>
     if String.eqb m "-" && String.eqb a "as" && String.eqb u "_" then
       match read_int lit with
-      | Some (n, sfx) => if String.eqb sfx "isize" then Some (Z.opp (Z.of_N n)) else None
+      | Some (n, sfx) => if String.eqb sfx "i64" then Some (Z.opp (Z.of_N n)) else None
       | None => None
       end
     else None
